@@ -67,6 +67,10 @@ struct Scripted {
     insts: Vec<dr::Instruction>,
     header: Option<dr::ModuleHeader>,
     calls: usize,
+    /// a consumer may itself parse (a linking consumer loading another module): when set, the callback that
+    /// answers first runs a complete parse of these bytes and keeps that parse's callback log
+    nest: Option<Vec<u8>>,
+    nested_log: Option<Vec<String>>,
 }
 
 impl Scripted {
@@ -75,6 +79,11 @@ impl Scripted {
         let pos = self.calls;
         self.calls += 1;
         if pos == self.at {
+            if let Some(b) = self.nest.take() {
+                let mut inner = Scripted { at: usize::MAX, act: Act::Continue, token: 0, payload: 0, sent: None, log: vec![], insts: vec![], header: None, calls: 0, nest: None, nested_log: None };
+                let _ = rspirv::binary::parse_bytes(&b, &mut inner);
+                self.nested_log = Some(inner.log);
+            }
             match self.act {
                 Act::Continue => ParseAction::Continue,
                 Act::Stop => ParseAction::Stop,
@@ -135,7 +144,9 @@ fn check_protocol(r: &mut Report, rp: &dyn Fn() -> Json, w: &[u32], bytes: &[u8]
             let token = idx * 1000 + k as u64;
             // every kind of error value at every position over the run; position and kind vary independently
             let pl = (idx as usize).wrapping_mul(7).wrapping_add(k * 5) % N_PAYLOADS;
-            let mut c = Scripted { at: if k == positions { usize::MAX } else { k }, act, token, payload: pl, sent: None, log: vec![], insts: vec![], header: None, calls: 0 };
+            // one run in three: the answering callback first parses the same binary itself (re-entrancy)
+            let nest = k != positions && (idx as usize + k) % 3 == 0;
+            let mut c = Scripted { at: if k == positions { usize::MAX } else { k }, act, token, payload: pl, sent: None, log: vec![], insts: vec![], header: None, calls: 0, nest: if nest { Some(bytes.to_vec()) } else { None }, nested_log: None };
             let res = match catch(|| if via_words { rspirv::binary::parse_words(w, &mut c) } else { rspirv::binary::parse_bytes(bytes, &mut c) }) {
                 Ok(x) => x,
                 Err(p) => {
@@ -146,6 +157,15 @@ fn check_protocol(r: &mut Report, rp: &dyn Fn() -> Json, w: &[u32], bytes: &[u8]
             let fail = |r: &mut Report, rule: &str, msg: String| {
                 r.violation(format!("C14:{}", rule), format!("{} [{}, {} entry point, answer {:?} (error value kind {}) at callback #{}]\nlog: {:?}", msg, ctx, if via_words { "parse_words" } else { "parse_bytes" }, act, pl, k, c.log), rp());
             };
+            if nest {
+                match &c.nested_log {
+                    Some(l) if l.iter().map(|s| s.as_str()).collect::<Vec<_>>() == full => r.count("nested_parses_inside_callbacks", 1),
+                    other => {
+                        fail(r, "nested-parse", format!("a parse of the same binary started inside callback #{} made the callbacks {:?}, a parse on its own makes {:?}", k, other, full));
+                        return;
+                    }
+                }
+            }
             let want_log: Vec<&str> = if k == positions { full.to_vec() } else { full[..=k].to_vec() };
             if c.log != want_log {
                 let rule = if c.log.len() > want_log.len() { "callback-after-end" } else if c.log.iter().filter(|s| *s == "finalize").count() > want_log.iter().filter(|s| **s == "finalize").count() { "finalize-unexpected" } else { "callback-order" };
@@ -208,7 +228,7 @@ fn check_protocol(r: &mut Report, rp: &dyn Fn() -> Json, w: &[u32], bytes: &[u8]
 }
 
 pub fn run(cfg: &Cfg, rep: &mut Report) {
-    rep.rule = "binaries with N in 0..12 generated instructions, well-formed or with a parse error injected at instruction j; for EVERY callback position k in 0..N+2 (initialize, header, N instructions, finalize) and every action (stop, error carrying a unique token) a scripted consumer answers at k: the callback log must be exactly the protocol prefix ending at k, delivered instructions must equal the stream's, the result must be ConsumerStopRequested / ConsumerError holding the consumer's own error value (16 kinds of error value: a private type, every kind of error the library defines itself incl. ParseState::Complete / ConsumerStopRequested, std errors; compared by content), finalize must be called iff the binary was parsed to the end without error; load_bytes must return a module only then. Injected parse errors: unknown opcode, zero word count, truncation, a module header where an instruction must start (concatenated modules). Stage `mutated`: modules of C03's generator under the 17 structured mutators, the first malformed instruction located by the reference parser (inputs it leaves unspecified are not judged), positions: all (<= 14 callbacks) or first/last/random. distinct_nontrivial = distinct (N, position class, action, error-injected) combinations".into();
+    rep.rule = "binaries with N in 0..12 generated instructions, well-formed or with a parse error injected at instruction j; for EVERY callback position k in 0..N+2 (initialize, header, N instructions, finalize) and every action (stop, error carrying a unique token) a scripted consumer answers at k: the callback log must be exactly the protocol prefix ending at k, one run in three the answering callback first parses the same binary itself (re-entrancy: same callbacks as a parse on its own, the outer parse unaffected); delivered instructions must equal the stream's, the result must be ConsumerStopRequested / ConsumerError holding the consumer's own error value (16 kinds of error value: a private type, every kind of error the library defines itself incl. ParseState::Complete / ConsumerStopRequested, std errors; compared by content), finalize must be called iff the binary was parsed to the end without error; load_bytes must return a module only then. Injected parse errors: unknown opcode, zero word count, truncation, a module header where an instruction must start (concatenated modules). Stage `mutated`: modules of C03's generator under the 17 structured mutators, the first malformed instruction located by the reference parser (inputs it leaves unspecified are not judged), positions: all (<= 14 callbacks) or first/last/random. distinct_nontrivial = distinct (N, position class, action, error-injected) combinations".into();
     let n = cfg.n(8_000, 10_000_000);
     run_stage(cfg, rep, "protocol", n, |idx, rng, r| {
         let n_inst = (idx % 13) as usize;
